@@ -291,7 +291,8 @@ def r44(e: Engine, rep: Report):
     ctx = e.method_ctx(OPS, 'get_ids')
     src = ast.unparse(ctx.func.node)
     rep.evaluations += 1
-    rep.check("endswith('.env')" in src and 'env_dir' in src, 'R4.4',
+    rep.check("'.env'" in src and 'env_dir' in src and 'listdir' in src,
+              'R4.4',
               ctx.func.qname, 'ids are discovered from *.env in env_dir',
               'get_ids no longer filters on the .env suffix of env_dir: '
               'temp files or foreign files are taken for messages',
